@@ -13,6 +13,7 @@ import (
 
 	"github.com/oxia-db/oxia/proto"
 	"github.com/oxia-db/oxia/server"
+	"github.com/oxia-db/oxia/server/kv"
 	"github.com/oxia-db/oxia/zzverif/vsched"
 
 	"verif/lib/oxc"
@@ -135,6 +136,71 @@ func body(writers int, reconnect bool) func(s *vsched.Sched) {
 	}
 }
 
+// vclock reads the scheduler's virtual clock.
+type vclock struct{ s *vsched.Sched }
+
+func (c vclock) Now() time.Time { return c.s.Now() }
+
+// trimBody: every stored batch is older than the retention time when a trimming round runs
+// concurrently with a new commit. The batch of the new write is within retention and must
+// still be delivered to a subscriber resuming from the last old offset.
+func trimBody() func(s *vsched.Sched) {
+	const retention = 10 * time.Second
+	return func(s *vsched.Sched) {
+		s.Explore(false)
+		env := oxc.NewEnv(s)
+		kvf := oxc.NewObsFactory(env.Dir)
+		kvf.Yield = true
+		// a retention far away for the DB's own trimmer: the harness runs the trimming rounds itself
+		lc, err := server.NewLeaderController(server.Config{NotificationsRetentionTime: 100 * time.Hour}, "ns", 1, oxc.NewNet(), env.WalFactory("n1", 64*1024, true), kvf)
+		if err == nil {
+			_, err = lc.NewTerm(&proto.NewTermRequest{Namespace: "ns", Shard: 1, Term: 1, Options: &proto.NewTermOptions{EnableNotifications: true}})
+		}
+		if err == nil {
+			_, err = lc.BecomeLeader(context.Background(), &proto.BecomeLeaderRequest{Namespace: "ns", Shard: 1, Term: 1, ReplicationFactor: 1, FollowerMaps: map[string]*proto.EntryId{}})
+		}
+		if err != nil {
+			s.Fail("harness-setup", err.Error())
+			return
+		}
+		for i := 0; i < 2; i++ {
+			if _, err := lc.WriteBlock(context.Background(), &proto.WriteRequest{Shard: oxh.I64(1), Puts: []*proto.PutRequest{{Key: fmt.Sprintf("old%d", i), Value: []byte("x")}}}); err != nil {
+				s.Fail("harness-setup", err.Error())
+				return
+			}
+		}
+		s.Sleep(retention + time.Second) // both batches are now older than the retention
+		s.Settle()
+		s.Explore(true)
+		db := server.VerifLeaderDB(lc)
+		acked := int64(-1)
+		vsched.Go(func() {
+			r, err := lc.WriteBlock(context.Background(), &proto.WriteRequest{Shard: oxh.I64(1), Puts: []*proto.PutRequest{{Key: "new", Value: []byte("v")}}})
+			if err == nil {
+				acked = r.Puts[0].Version.VersionId
+			}
+		})
+		var terr error
+		vsched.Go(func() { terr = kv.VerifTrimNotifications(db, retention, vclock{s}) })
+		s.Settle()
+		s.Explore(false)
+		if terr != nil {
+			s.Fail("trim-failed", terr.Error())
+		}
+		sb := &sub{}
+		sb.ctx, sb.cnl = context.WithCancel(context.Background())
+		after := int64(1)
+		lc.GetNotifications(sb.ctx, &proto.NotificationsRequest{Shard: 1, StartOffsetExclusive: &after}, sb)
+		s.Settle()
+		sb.cnl()
+		if acked >= 0 && (len(sb.got) != 1 || sb.got[0].Offset != acked) {
+			s.Fail("notification-within-retention-lost", fmt.Sprintf("the write at offset %d was committed while a trimming round ran; a subscriber resuming after offset 1 received offsets %v", acked, offsets(sb.got)))
+		}
+		s.Data = fmt.Sprint("trim", offsets(sb.got))
+		_ = lc.Close()
+	}
+}
+
 func offsets(bs []*proto.NotificationBatch) []int64 {
 	var o []int64
 	for _, b := range bs {
@@ -150,6 +216,7 @@ func scenarios(tier string) []sched.Scenario {
 		{Name: "1writer", Cfg: cfg, MaxDev: d, Body: body(1, false)},
 		{Name: "2writers", Cfg: cfg, MaxDev: d, Body: body(2, false)},
 		{Name: "2writers-reconnect", Cfg: cfg, MaxDev: d, Body: body(2, true)},
+		{Name: "trim-round-vs-commit", Cfg: cfg, MaxDev: 3, Body: trimBody(), HorizonKey: "subscriber-spins-without-receiving"},
 	}
 	if tier == "thorough" {
 		out[0].MaxDev = 3
